@@ -31,7 +31,7 @@ def vtok(v):
 
 
 def generate(rng, tier):
-    reps = {"quick": 2, "thorough": 25, "search": 8}.get(tier, 2)
+    reps = {"quick": 4, "thorough": 25, "search": 8}.get(tier, 2)
     cases = []
     mags = [1e-6, 1e-5, 1e-4, 1e-3, 1e-2, 1.0, 30.0, 1e3]     # small magnitudes: scale invariance of the cosine down to ~1e-9
     for n in range(0, 131):
